@@ -1,37 +1,31 @@
 ---- MODULE Sim_Attachments ----
-(* Simulation wrapper of Attachments (see Sim_Storage / Sim_Resources). *)
+(* Simulation wrapper of Attachments (see Sim_Resources for the TLC facts behind its shape). *)
 EXTENDS MC_Attachments
 VARIABLE hist
-Pick(S, dflt) == IF S = {} THEN dflt ELSE RandomElement(S)
+Rnd(S) == RandomElement(IF nops >= 0 THEN S ELSE {})
+Pick(S, dflt) == IF S = {} THEN dflt ELSE Rnd(S)
 SimInit == Init /\ hist = << >>
-SimStep ==
-  LET b    == Pick(Live, 1)
-      c    == Pick(Live, 1)
-      y    == RandomElement(AttTys)
-      z    == RandomElement(AttTys)
-      dst  == Pick({pl \in Places : At(pl) = {}}, SlotPl(1))
-      i    == RandomElement(Slots)
-      si   == RandomElement(SSlots)
-      sj   == RandomElement(SSlots)
-      x    == RandomElement(XVals)
-      coin == RandomElement(1..10)
-  IN \/ Begin
-     \/ ((coin = 1 \/ nops >= MaxOps) /\ Commit)
-     \/ Create(i)
-     \/ Attach(b, y)
-     \/ (coin <= 3 /\ Attach(c, z))
-     \/ Access(b, y)
-     \/ (coin <= 4 /\ Sec(c))
-     \/ (coin <= 4 /\ ForEach(b))
-     \/ (coin <= 5 /\ Remove(b, z))
-     \/ Move(b, dst) \/ Move(c, dst)
-     \/ (coin <= 2 /\ Destroy(c))
-     \/ (coin <= 3 /\ SAttach(si))
-     \/ (coin <= 3 /\ SCopy(si, sj))
-     \/ (coin <= 2 /\ SSet(si, x))
-     \/ (coin = 4 /\ SRemove(si))
-     \/ (coin = 5 /\ SSave(si))
-     \/ (coin = 6 /\ SLoad(sj))
+S2(coin, b, c, y, z, dst, i, si, sj, x) ==
+     \/ Begin
+     \/ ((coin = 1 /\ nops >= 3) \/ nops >= MaxOps) /\ Commit
+     \/ (coin \in {1, 2, 10} \/ Live = {}) /\ Create(i)
+     \/ coin \in {2, 3, 4, 5} /\ Attach(b, y)
+     \/ coin \in {3, 6, 9} /\ Access(b, y)
+     \/ coin \in {4, 7} /\ Sec(c)
+     \/ coin \in {5, 8} /\ ForEach(b)
+     \/ coin \in {6, 9} /\ Remove(b, z)
+     \/ coin \in {1, 6, 7, 8, 10} /\ Move(b, dst)
+     \/ coin = 10 /\ Destroy(c)
+     \/ coin \in {2, 7} /\ SAttach(si)
+     \/ coin \in {3, 8} /\ SCopy(si, sj)
+     \/ coin \in {4, 9} /\ SSet(si, x)
+     \/ coin = 5 /\ SRemove(si)
+     \/ coin \in {1, 6} /\ SSave(si)
+     \/ coin \in {9, 10} /\ SLoad(sj)
+S1(coin) ==
+  S2(coin, Pick(Live, 1), Pick(Live, 1), Rnd(AttTys), Rnd(AttTys),
+     Pick({pl \in Places : At(pl) = {}}, SlotPl(1)), Rnd(Slots), Rnd(SSlots), Rnd(SSlots), Rnd(XVals))
+SimStep == S1(Rnd(1..10))
 SimNext == SimStep /\ hist' = Append(hist, last')
 SimSpec == SimInit /\ [][SimNext]_<<vars, hist>>
 SimDepth == 60
